@@ -1308,3 +1308,34 @@ def check_reindex_congruent(prog, rep, rels, rule='REINDEX-congruent',
                                   'may end up next to tensors they do not belong to' %
                                   (sorted(used), base, other), line)
     return n
+
+
+# ---------------------------------------------------------------------------------------------
+# GROUP-stride: group_sites(n) groups `n` sites each, but the LAST group is smaller when the
+# number of sites is not a multiple of n.  Every loop over the grouped sites therefore moves
+# through the old sites by the actual size of the group (`gs.n_sites`); the nominal `n` inside such
+# a loop addresses the wrong old site / bond after a short group (sibling agreement of the
+# group_sites implementations of MPS, MPO and NearestNeighborModel).
+def check_group_stride(prog, rep, rels, rule='GROUP-stride'):
+    import ast
+    from .core import params, unparse
+    n_loops = 0
+    for rel in rels:
+        m = prog.module(rel)
+        for q, f in sorted(m.functions.items()):
+            if not q.endswith('group_sites') or 'n' not in params(f):
+                continue
+            for loop in ast.walk(f):
+                if not isinstance(loop, ast.For) or 'grouped_sites' not in unparse(loop.iter):
+                    continue
+                n_loops += 1
+                reads = [x for b in loop.body for x in ast.walk(b)
+                         if isinstance(x, ast.Name) and x.id == 'n' and isinstance(x.ctx, ast.Load)]
+                rep.instance(rule, {'function': q, 'loop': unparse(loop.target),
+                                    'reads_nominal_n': len(reads)})
+                for x in reads:
+                    rep.violation(rule, m, q, 'nominal-group-size',
+                                  'the loop over the grouped sites uses the nominal group size '
+                                  '`n`; the last group is smaller when the number of sites is not '
+                                  'a multiple of n (use the n_sites of the group)', x.lineno)
+    return n_loops
